@@ -437,6 +437,15 @@ func (bA *BitArray) FromProto(protoBitArray *tmprotobits.BitArray) {
 		return
 	}
 
+	// A well-formed bit array of n bits has exactly (n+63)/64 elements. The
+	// protobuf message can come from a peer: anything else is not trusted and is
+	// treated as an empty bit array (indexing it would panic).
+	if protoBitArray.Bits < 0 || int64(len(protoBitArray.Elems)) != (protoBitArray.Bits+63)/64 {
+		bA.Bits = 0
+		bA.Elems = nil
+		return
+	}
+
 	bA.Bits = int(protoBitArray.Bits)
 	if len(protoBitArray.Elems) > 0 {
 		bA.Elems = protoBitArray.Elems
